@@ -204,7 +204,7 @@ func raceOne(vc *VC, r *Result, o solveOpts) {
 	}
 	ch := make(chan ans, len(solvers))
 	r.Status, r.Solver = "unknown", "all"
-	ms := o.timeoutMs
+	ms := 3 * o.timeoutMs // generous: only obligations the first pass could not decide get here
 	ctx, cancel := context.WithCancel(context.Background())
 	defer cancel()
 	for _, s := range solvers {
